@@ -411,6 +411,53 @@ pub fn enc_enumerated(thorough: bool) -> Vec<Vec<String>> {
             cases.push(ops);
         }
     }
+    // FE as the last byte of the full first chunk, then every size 0..=maxSub+1 for
+    // the next chunk (every header value), with and without FD as its first byte,
+    // three ways to end; fed as `..FE` | rest so the boundary is also a call boundary.
+    for (mi, ms) in [(3usize, 5usize), (2, 3), (1, 2), (1, 1), (2, 507)] {
+        let l = Limits::custom(mi, ms).unwrap();
+        let mut ops = Vec::new();
+        for s in 0..=ms + 1 {
+            for fd_first in [false, true] {
+                if fd_first && s == 0 {
+                    continue;
+                }
+                for ending in 0..3 {
+                    if ms > 16 && (ending != s % 3 || !fd_first) {
+                        continue;
+                    }
+                    let mut head = vec![0x61u8; mi - 1];
+                    head.push(0xFE);
+                    let mut tail: Vec<u8> = (0..s).map(|i| 0x30 + (i % 10) as u8).collect();
+                    if fd_first {
+                        tail[0] = 0xFD;
+                    }
+                    match ending {
+                        0 => {}
+                        1 => tail.extend_from_slice(&[0xFE, 0xFD]),
+                        _ => tail.extend_from_slice(&[0xFE, 0xFD, 0x7A]),
+                    }
+                    let (m1, m2) = pairs[rot % pairs.len()];
+                    rot += 1;
+                    ops.push(l.op());
+                    ops.push(format!("enc {} {}", m1, to_hex(&head)));
+                    ops.push(format!("enc {} {}", m2, to_hex(&tail)));
+                    ops.push("finish".into());
+                    let mut whole = head.clone();
+                    whole.extend_from_slice(&tail);
+                    ops.push(l.op());
+                    ops.push(format!("enc {} {}", m2, to_hex(&whole)));
+                    ops.push("finish".into());
+                }
+            }
+            if ops.len() > 400 {
+                cases.push(std::mem::take(&mut ops));
+            }
+        }
+        if !ops.is_empty() {
+            cases.push(ops);
+        }
+    }
     cases
 }
 
